@@ -484,24 +484,59 @@ func runR145(c *Ctx) {
 	}
 	bufT := c.LookupType(bufferRel, "Buffer")
 	n := 0
-	allInstrs(rd, func(ins ssa.Instruction) {
-		cl, isC := ins.(*ssa.Call)
-		if !isC || !cl.Call.IsInvoke() || !types.Identical(cl.Call.Value.Type(), bufT) {
-			return
-		}
-		switch cl.Call.Method.Name() {
-		case "Discard", "GetSizeBytes":
-			return
-		}
-		n++
-		honours := false
-		for _, a := range cl.Call.Args {
-			if lf, base := loadedField(a); lf != nil && lf.Name() == "ReadOffset" && base == ssa.Value(rd.Params[1]) {
-				honours = true
+	// Read and the helpers of the same type it hands the request to
+	type scope struct {
+		fn  *ssa.Function
+		req ssa.Value
+	}
+	scopes := []scope{{rd, rd.Params[1]}}
+	for i := 0; i < len(scopes) && i < 8; i++ {
+		sc := scopes[i]
+		allInstrs(sc.fn, func(ins ssa.Instruction) {
+			cl, isC := ins.(*ssa.Call)
+			if !isC {
+				return
 			}
-		}
-		c.Check(honours, FuncName(rd), "read-offset", c.Pos(cl.Pos()), "object data is streamed starting at the requested read_offset", "object data is streamed through "+cl.Call.Method.Name()+"() without regard to the requested read_offset: a read at offset k would return bytes from the start of the object")
-	})
+			h := cl.Call.StaticCallee()
+			if h == nil || h.Pkg != rd.Pkg || len(h.Blocks) == 0 || h.Signature.Recv() == nil || !types.Identical(h.Signature.Recv().Type(), rd.Signature.Recv().Type()) {
+				return
+			}
+			for ai, a := range cl.Call.Args {
+				if a == sc.req && ai < len(h.Params) {
+					dup := false
+					for _, o := range scopes {
+						if o.fn == h {
+							dup = true
+						}
+					}
+					if !dup {
+						scopes = append(scopes, scope{h, h.Params[ai]})
+					}
+				}
+			}
+		})
+	}
+	for _, sc := range scopes {
+		sc := sc
+		allInstrs(sc.fn, func(ins ssa.Instruction) {
+			cl, isC := ins.(*ssa.Call)
+			if !isC || !cl.Call.IsInvoke() || !types.Identical(cl.Call.Value.Type(), bufT) {
+				return
+			}
+			switch cl.Call.Method.Name() {
+			case "Discard", "GetSizeBytes":
+				return
+			}
+			n++
+			honours := false
+			for _, a := range cl.Call.Args {
+				if lf, base := loadedField(a); lf != nil && lf.Name() == "ReadOffset" && base == sc.req {
+					honours = true
+				}
+			}
+			c.Check(honours, FuncName(sc.fn), "read-offset", c.Pos(cl.Pos()), "object data is streamed starting at the requested read_offset", "object data is streamed through "+cl.Call.Method.Name()+"() without regard to the requested read_offset: a read at offset k would return bytes from the start of the object")
+		})
+	}
 	if n == 0 {
 		c.Fail(FuncName(rd), "read-offset", c.Pos(rd.Pos()), "Read does not consume the object")
 	}
